@@ -298,6 +298,7 @@ func init() {
 	addScoped("C07", "D10", in("clickhouse_planner"), d10)
 	addScoped("C09", "D10", in("internal_planner"), d10)
 	addScoped("C11", "D10", in("reader/traceql/"), d10)
+	addScoped("C11", "D11", in("reader/traceql/"), "(D11) an attribute aggregate's operand rows are kept by an unconditional `key == attr` alternative of the scan filter, for the same attribute.")
 	o4 := "(O4) the arrays of a chunk that was handed to the insert path by a channel send are never re-sliced into the next chunk."
 	addScoped("C03", "O4", in(""), o4)
 	addScoped("C02", "O4", in(""), o4)
